@@ -289,7 +289,15 @@ class _Parser(barectf_config_parse_common._Parser):
                 # field type for the length and the dynamic array field
                 # type itself.
                 assert type(member_fts[1]) is barectf_config.DynamicArrayFieldType
-                members[f'__{member_name}_len'] = barectf_config.StructureFieldTypeMember(member_fts[0])
+                len_member_name = f'__{member_name}_len'
+
+                if len_member_name in member_names:
+                    # collides with a member of the configuration
+                    raise _ConfigurationParseError(f'`{prop_name}` property',
+                                                   f'Duplicate member `{len_member_name}` (length member of dynamic array field type member `{member_name}`)')
+
+                member_names.add(len_member_name)
+                members[len_member_name] = barectf_config.StructureFieldTypeMember(member_fts[0])
             else:
                 assert len(member_fts) == 1
 
